@@ -25,6 +25,7 @@ C = "_cache.py"
 D = "_dns.py"
 Q = "_handlers/multicast_outgoing_queue.py"
 B = "_services/browser.py"
+P = "_handlers/query_handler.py"
 
 # (name, kind, property, file, old, new)
 CASES = [
@@ -102,6 +103,17 @@ CASES = [
     ("S-R1", "rewrite", "C10", B, ("additional_wait", "extra_wait"), None),
     ("S-R2", "rewrite", "C10", B, "        scheduled = self._next_scheduled_for_alias.pop(pointer.alias_key, None)\n        if scheduled:\n",
      "        scheduled = self._next_scheduled_for_alias.pop(pointer.alias_key, None)\n        if scheduled is not None:\n"),
+    # ---- _handlers/query_handler.py (_QueryResponse) / C11
+    ("P-M1", "mutation", "C11", P, "            if not self._has_mcast_within_one_quarter_ttl(record):\n                self._mcast_now.add(record)",
+     "            if self._has_mcast_within_one_quarter_ttl(record):\n                self._mcast_now.add(record)"),
+    ("P-M2", "mutation", "C11", P, "_RESPOND_IMMEDIATE_TYPES = {_TYPE_NSEC, _TYPE_SRV, *_ADDRESS_RECORD_TYPES}", "_RESPOND_IMMEDIATE_TYPES = {_TYPE_NSEC, *_ADDRESS_RECORD_TYPES}"),
+    ("P-M3", "mutation", "C11", P, "                self._mcast_aggregate_last_second.add(answer)\n                continue", "                self._mcast_aggregate.add(answer)\n                continue"),
+    ("P-M4", "mutation", "C11", P, "        mcast_now = {r: self._additionals[r] for r in self._mcast_now}", "        mcast_now = {r: self._additionals[r] for r in self._mcast_aggregate}"),
+    ("P-M5", "mutation", "C11", P, "self._now - maybe_entry.created < _ONE_SECOND)", "self._now - maybe_entry.created <= _ONE_SECOND)"),
+    ("P-M6", "mutation", "C11", P, "        self._additionals.update(answers)\n        self._ucast.update(answers)\n", "        self._ucast.update(answers)\n"),
+    ("P-R1", "rewrite", "C11", P, ("additionals", "extra_records"), None),
+    ("P-R2", "rewrite", "C11", P, "            if len(self._questions) == 1:\n                question = self._questions[0]\n                if question.type in _RESPOND_IMMEDIATE_TYPES:",
+     "            if len(self._questions) == 1:\n                first_question = self._questions[0]\n                if first_question.type in _RESPOND_IMMEDIATE_TYPES:"),
     ("Q-R1", "rewrite", "C12", Q, ("random_delay", "delay_ms"), None),
     ("Q-R2", "rewrite", "C12", Q, "        if len(self.queue):\n            # If we calculate", "        if self.queue:\n            # If we calculate"),
     ("Q-R3", "rewrite", "C12", Q, "            answers.update(self.queue.popleft().answers)\n", "            group = self.queue.popleft()\n            answers.update(group.answers)\n"),
